@@ -137,6 +137,28 @@ class ChainIter:
         return "chain(%s)" % ", ".join(repr(p) for p in self.parts)
 
 
+class MapV:
+    """Concrete map / set (HashMap, BTreeMap, HashSet, …): an association list compared with `Eq` on the keys (symbolic keys
+    give eq atoms).  Sets are maps to UNIT.  Iteration order is the insertion order — rules must not rely on it."""
+    __slots__ = ("items", "kind")
+
+    def __init__(self, items=(), kind="map"):
+        self.items = [list(kv) for kv in items]
+        self.kind = kind
+
+    def __repr__(self):
+        if self.kind == "set":
+            return "{%s}" % ", ".join(repr(k) for k, _ in self.items)
+        return "{%s}" % ", ".join("%r: %r" % (k, v) for k, v in self.items)
+
+
+class EntryV:
+    __slots__ = ("m", "key", "slot")
+
+    def __init__(self, m, key, slot):
+        self.m, self.key, self.slot = m, key, slot       # slot: the [k, v] cell when occupied, else None
+
+
 UNIT = ()
 
 
@@ -158,6 +180,8 @@ def term(v):
         return ("tuple",) + tuple(term(x) for x in v)
     if isinstance(v, list):
         return ("list",) + tuple(term(x) for x in v)
+    if isinstance(v, MapV):
+        return ("map",) + tuple(("tuple", term(k), term(x)) for k, x in v.items)
     if isinstance(v, Iter):
         return ("iter", v.src) + tuple(o[0] for o in v.ops)
     if isinstance(v, ChainIter):
@@ -216,13 +240,26 @@ def subterms(t):
 # ---------------------------------------------------------------------------------------------------------------------------
 
 class Event:
-    __slots__ = ("fn", "args", "result", "sp", "kind", "name")
+    __slots__ = ("fn", "args", "result", "sp", "kind", "name", "nd")
 
     def __init__(self, kind, fn, args, result, sp, name=None):
         self.kind, self.fn, self.args, self.result, self.sp, self.name = kind, fn, args, result, sp, name
+        self.nd = None     # number of decisions the path had made when the event happened (set by the path)
 
     def __repr__(self):
         return "%s %s(%s)" % (self.kind, (self.fn or self.name or "?").split("::")[-1], ", ".join(repr(a) for a in self.args))
+
+
+class _Events(list):
+    """event list that stamps each event with the number of decisions made so far"""
+
+    def __init__(self, path):
+        super().__init__()
+        self._path = path
+
+    def append(self, e):
+        e.nd = len(self._path.decisions)
+        super().append(e)
 
 
 class Path:
@@ -230,7 +267,7 @@ class Path:
         self.prefix = list(prefix)      # forced choices (indices) for the first decisions
         self.decisions = []             # [(atom, choice, n_options)]
         self.val = {}                   # atom -> choice
-        self.events = []
+        self.events = _Events(self)
         self.ret = None
         self.complete = True
         self.note = None
@@ -335,10 +372,10 @@ class Evaluator:
         self.types = {}                 # term -> type string (best effort, for enum variant domains)
 
     # ------------------------------------------------------------------ exploration
-    def explore(self, fn, args=None, max_paths=3000, self_value=None, finalize=None):
+    def explore(self, fn, args=None, max_paths=3000, self_value=None, finalize=None, hir=None):
         """args: list of values, or a callable returning a fresh list per path (needed when the values are mutable places);
         finalize(path, args): called after each completed path (to snapshot the final state of mutable arguments)."""
-        h = self.F.hir(fn)
+        h = hir if hir is not None else self.F.hir(fn)     # hir=: one of several bodies sharing a path (impl blocks differing in type arguments)
         if h is None:
             raise Abort("no HIR for %s" % fn)
         done = []
@@ -591,6 +628,8 @@ class Evaluator:
         k = p.get("k")
         if k == "wild":
             return True
+        if isinstance(v, EntryV) and k in ("tuplestruct", "struct", "path"):
+            v = V("Occupied" if v.slot is not None else "Vacant", (v,))
         if k == "bind":
             if p.get("sub") and not self.bind(p["sub"], v, env):
                 return False
@@ -816,6 +855,11 @@ class Evaluator:
                 return V("None", ())
             return Ctor(name)
         if dk in ("Const", "AssocConst", "Static"):
+            if "cstr" in r:
+                return r["cstr"]          # constant of another crate: the compiler's evaluated value
+            if "cint" in r and not isinstance(r["cint"], bool):
+                v = self.const_value(r["def"])
+                return v if not isinstance(v, Sym) else r["cint"]
             return self.const_value(r["def"])
         if dk in ("Fn", "AssocFn"):
             return FnRef(r["def"])
@@ -910,8 +954,10 @@ class Evaluator:
 
     def ev_index(self, n, env, depth):
         b, i = self.ev(n["base"], env, depth), self.ev(n["idx"], env, depth)
-        if isinstance(b, (list, str)) and isinstance(i, int) and 0 <= i < len(b):
-            return b[i]
+        if isinstance(b, (list, str)) and isinstance(i, int) and not isinstance(i, bool):
+            if 0 <= i < len(b):
+                return b[i]
+            raise Panic("index out of bounds: the len is %d but the index is %d" % (len(b), i))
         if isinstance(b, (list, str)) and isinstance(i, St) and i.ty.startswith("core::ops::range::Range"):
             lo = i.f.get("start", 0)
             hi = i.f.get("end", len(b))
@@ -921,6 +967,9 @@ class Evaluator:
                 if 0 <= lo <= hi <= len(b):
                     return b[lo:hi]
                 raise Panic("slice index out of range")
+        if isinstance(b, Sym):
+            # recorded so that a rule can ask whether the path established a sufficient length before this point
+            self.path.events.append(Event("index", None, [b, i], None, n.get("sp"), name="[]"))
         return Sym(("index", term(b), term(i)))
 
     def ev_struct(self, n, env, depth):
@@ -1091,6 +1140,8 @@ class Evaluator:
             return list(coll)
         if isinstance(coll, tuple):
             return list(coll)
+        if isinstance(coll, MapV):
+            return [(c[0], c[1]) for c in coll.items] if coll.kind == "map" else [c[0] for c in coll.items]
         if isinstance(coll, V) and coll.name in ("Some", "None"):
             return list(coll.fields)
         if isinstance(coll, ChainIter):
@@ -1259,6 +1310,15 @@ class Evaluator:
                 m = re.match(r"^\[.*;\s*(\d+)(?:_?usize)?\]$", t_.strip())
                 if m:
                     return V("Ok", (list(a0),)) if len(a0) == int(m.group(1)) else V("Err", (a0,))
+        if re.search(r"cmp::Ordering::(then_with|then)$", base) and len(args) == 2:
+            # lexicographic composition: the second comparison counts only when the first is Equal
+            if self.compare("Eq", a0, Ctor("Equal")) if isinstance(a0, Sym) else (isinstance(a0, (V, Ctor)) and getattr(a0, "name", None) == "Equal"):
+                return self.apply(args[1], [], depth, node) if name == "then_with" else args[1]
+            return a0
+        if re.search(r"(core|std)::mem::size_of$", base) and not args and node is not None and node.get("targs_full"):
+            sz = {"u8": 1, "i8": 1, "bool": 1, "u16": 2, "i16": 2, "u32": 4, "i32": 4, "char": 4, "f32": 4, "u64": 8, "i64": 8, "f64": 8, "u128": 16, "i128": 16}.get(node["targs_full"][0].strip())
+            if sz is not None:
+                return sz
         if IDENTITY_FNS.search(fn):
             return a0
         is_opt = base.startswith("core::option::Option::")
@@ -1275,6 +1335,38 @@ class Evaluator:
                 return not b
         if self.concrete_vec and re.search(r"^alloc::vec::Vec(<.*>)?::(new|with_capacity)$", base):
             return []
+        if self.concrete_vec and re.search(r"^(std|hashbrown|alloc)::collections::(hash::map::HashMap|hash::set::HashSet|btree::map::BTreeMap|btree::set::BTreeSet|hash_map::HashMap|hash_set::HashSet)(<.*>)?::(new|with_capacity|default)$", base):
+            return MapV(kind="set" if "Set" in base else "map")
+        if isinstance(a0, MapV):
+            r = self.map_builtin(name, a0, args, depth, node)
+            if r is not NotImplemented:
+                return r
+        if isinstance(a0, EntryV):
+            r = self.entry_builtin(name, a0, args, depth, node)
+            if r is not NotImplemented:
+                return r
+        if self.concrete_vec and re.search(r"(RwLock|Mutex|RefCell)(<.*>)?::(read|write|lock|borrow|borrow_mut|blocking_read|blocking_write|get_mut|into_inner)$", base) and isinstance(a0, (MapV, list, St)):
+            return a0     # the guard is the protected value itself (one thread of control; lock spans are decided elsewhere)
+        if self.concrete_vec and re.search(r"(RwLock|Mutex|RefCell)(<.*>)?::new$", base) and isinstance(a0, (MapV, list, St)):
+            return a0
+        if self.concrete_vec and re.search(r"FuturesUnordered(<.*>)?::new$|FuturesOrdered(<.*>)?::new$", base):
+            return []     # the outputs of the futures pushed so far (each future is evaluated eagerly; completion order is not modelled)
+        if self.concrete_vec and isinstance(a0, list) and "futures" in base and name in ("push", "push_back"):
+            a0.append(self.run_future(args[1], depth))
+            return UNIT
+        if self.concrete_vec and isinstance(a0, list) and name in ("try_collect", "try_collect_into") and node is not None and node.get("targs_full"):
+            # TryStreamExt::try_collect::<C>: Err as soon as one output is Err, otherwise the Ok payloads collected into C
+            outs = list(reversed(a0)) if getattr(self, "completion", "fifo") == "lifo" else a0
+            return self.collect_into(outs, "core::result::Result<%s, _>" % node["targs_full"][-1], depth, node)
+        if self.concrete_vec and isinstance(a0, list) and "futures" in base and name in ("next", "try_next") and len(args) == 1:
+            at = -1 if getattr(self, "completion", "fifo") == "lifo" else 0
+            if name == "next":
+                return V("Some", (a0.pop(at),)) if a0 else V("None")
+            if not a0:
+                return V("Ok", (V("None"),))
+            x = a0.pop(at)
+            x = self.force(x, ("Ok", "Err")) if isinstance(x, Sym) else x
+            return V("Ok", (V("Some", (x.fields[0],)),)) if x.name == "Ok" else x
         if self.concrete_vec and isinstance(a0, list) and name == "size_hint":
             return (len(a0), V("Some", (len(a0),)))
         if self.concrete_vec and isinstance(a0, list) and name == "reserve":
@@ -1361,6 +1453,33 @@ class Evaluator:
             return len(s.encode())
         if name == "is_empty":
             return s == ""
+        # a pattern that is a set of chars (`['/', '?', '#']`, `&[..]`) or a char predicate (closure / fn item)
+        pred = None
+        if isinstance(o, (list, tuple)) and o and all(isinstance(c, (Ch, str)) and not isinstance(c, Sym) for c in o):
+            cs = {chr(int(c)) if isinstance(c, Ch) else c for c in o}
+            pred = lambda ch: ch in cs  # noqa: E731
+        elif isinstance(o, (Clo, FnRef)):
+            pred = lambda ch: self.decide_bool(self.apply(o, [Ch(ord(ch))], 0))  # noqa: E731
+        if pred is not None:
+            if name == "starts_with":
+                return bool(s) and pred(s[0])
+            if name == "ends_with":
+                return bool(s) and pred(s[-1])
+            if name == "contains":
+                return any(pred(c) for c in s)
+            if name in ("find", "rfind"):
+                idxs = [len(s[:k].encode()) for k, c in enumerate(s) if pred(c)]
+                return V("Some", (idxs[0] if name == "find" else idxs[-1],)) if idxs else V("None")
+            if name == "trim_start_matches":
+                while s and pred(s[0]):
+                    s = s[1:]
+                return s
+            if name == "trim_end_matches":
+                while s and pred(s[-1]):
+                    s = s[:-1]
+                return s
+            if name == "strip_prefix":
+                return V("Some", (s[1:],)) if s and pred(s[0]) else V("None")
         if oc is not None:
             if name == "contains":
                 return oc in s
@@ -1622,11 +1741,126 @@ class Evaluator:
         head = ty.split("<")[0]
         if head.endswith("vec::Vec") or head.endswith("VecDeque"):
             return list(xs)
+        if re.search(r"(HashMap|BTreeMap|IndexMap|HashSet|BTreeSet|IndexSet)$", head):
+            m = MapV(kind="set" if head.endswith("Set") else "map")
+            for x in xs:
+                if m.kind == "set":
+                    if self.map_find(m, x) is None:
+                        m.items.append([x, UNIT])
+                elif isinstance(x, tuple) and len(x) == 2:
+                    c = self.map_find(m, x[0])
+                    if c:
+                        c[1] = x[1]
+                    else:
+                        m.items.append([x[0], x[1]])
+                else:
+                    raise Abort("collect of a non-pair into a map")
+            return m
         # type strings are crate-relative inside their own crate: match the ADT path by suffix
         cands = [f for f in self.F.find(r"^<(\w+::)*%s as core::iter::traits::collect::FromIterator(<.*>)?>::from_iter$" % re.escape(head))]
         if cands:
             return self.call_fn(cands[0], [list(xs)], depth, node)
         return list(xs)
+
+    def map_find(self, m, key):
+        for cell in m.items:
+            if self.compare("Eq", cell[0], key):
+                return cell
+        return None
+
+    def map_builtin(self, name, m, args, depth, node):
+        if name in ("get", "get_mut") and len(args) == 2:
+            c = self.map_find(m, args[1])
+            return V("Some", (c[1] if m.kind == "map" else c[0],)) if c else V("None")
+        if name == "get_key_value" and len(args) == 2:
+            c = self.map_find(m, args[1])
+            return V("Some", ((c[0], c[1]),)) if c else V("None")
+        if name in ("contains_key", "contains") and len(args) == 2:
+            return self.map_find(m, args[1]) is not None
+        if name == "insert" and len(args) == 3:
+            c = self.map_find(m, args[1])
+            if c:
+                old = c[1]
+                c[1] = args[2]          # the key of an occupied entry is kept, the value replaced
+                return V("Some", (old,))
+            m.items.append([args[1], args[2]])
+            return V("None")
+        if name == "insert" and len(args) == 2 and m.kind == "set":
+            if self.map_find(m, args[1]):
+                return False
+            m.items.append([args[1], UNIT])
+            return True
+        if name in ("remove", "remove_entry", "take") and len(args) == 2:
+            c = self.map_find(m, args[1])
+            if c is None:
+                return V("None") if m.kind == "map" or name == "take" else False
+            m.items.remove(c)
+            if m.kind == "set":
+                return True if name == "remove" else V("Some", (c[0],))
+            return V("Some", (c[1],)) if name == "remove" else V("Some", ((c[0], c[1]),))
+        if name == "entry" and len(args) == 2:
+            return EntryV(m, args[1], self.map_find(m, args[1]))
+        if name == "len" and len(args) == 1:
+            return len(m.items)
+        if name == "is_empty" and len(args) == 1:
+            return not m.items
+        if name == "clear" and len(args) == 1:
+            del m.items[:]
+            return UNIT
+        if name in ("iter", "iter_mut", "into_iter", "drain"):
+            out = [(c[0], c[1]) for c in m.items] if m.kind == "map" else [c[0] for c in m.items]
+            if name == "drain":
+                del m.items[:]
+            return out
+        if name in ("keys", "into_keys"):
+            return [c[0] for c in m.items]
+        if name in ("values", "into_values", "values_mut"):
+            return [c[1] for c in m.items]
+        if name == "extend" and len(args) == 2 and isinstance(args[1], (list, MapV)):
+            src = args[1].items if isinstance(args[1], MapV) else args[1]
+            for x in src:
+                k, v = (x[0], x[1]) if m.kind == "map" else (x if not isinstance(x, list) else x[0], UNIT)
+                c = self.map_find(m, k)
+                if c:
+                    c[1] = v
+                else:
+                    m.items.append([k, v])
+            return UNIT
+        if name in ("clone", "to_owned"):
+            return MapV([list(c) for c in m.items], m.kind)
+        if name in ("reserve", "shrink_to_fit"):
+            return UNIT
+        return NotImplemented
+
+    def entry_builtin(self, name, e, args, depth, node):
+        def put(v):
+            if e.slot is None:
+                e.slot = [e.key, v]
+                e.m.items.append(e.slot)
+            return e.slot[1]
+        if name == "or_insert" and len(args) == 2:
+            return put(args[1])
+        if name == "or_insert_with" and len(args) == 2:
+            return e.slot[1] if e.slot is not None else put(self.apply(args[1], [], depth, node))
+        if name == "or_default":
+            return e.slot[1] if e.slot is not None else put(Sym(("default",)))
+        if name == "key":
+            return e.key
+        if name == "and_modify":
+            raise Abort("Entry::and_modify")
+        # occupied / vacant views (after `match map.entry(k) { Entry::Occupied(o) => .., Entry::Vacant(v) => .. }`)
+        if name == "insert" and len(args) == 2:
+            if e.slot is None:
+                return put(args[1])
+            old = e.slot[1]
+            e.slot[1] = args[1]
+            return old
+        if name in ("get", "get_mut", "into_mut") and e.slot is not None:
+            return e.slot[1]
+        if name in ("remove", "remove_entry") and e.slot is not None:
+            e.m.items.remove(e.slot)
+            return e.slot[1] if name == "remove" else (e.slot[0], e.slot[1])
+        return NotImplemented
 
     VEC_MUTATORS = ("push", "insert", "remove", "swap_remove", "drain", "extend", "clear", "truncate", "retain", "pop", "append", "reverse", "swap", "extend_from_slice", "split_off")
 
